@@ -5,7 +5,7 @@ TARGET = dict(
           "(xfer manager with or without mutex, remote loop attached before or after the allocation, upump-manager probe frozen during the allocation, 1-2 mock "
           "remote pipes that record every entry, ask for a upump manager when entered during the allocation and throw transferable events; in a third of the worker "
           "cases thread B is a REAL thread created by upipe_pthread_xfer_mgr_alloc and both threads are served by the real uprobe_pthread_upump_mgr, run in strict "
-          "alternation under the harness' control) -- with queue lengths 1-4 (biased), 5-255, 300; the two logical threads are two "
+          "alternation under the harness' control) -- with queue lengths 1-4 (biased), 5-255, 300; in 15% of the worker cases the command queue of the xfer manager and the event queues of the xfer pipes hold 1-2 messages and OVERFLOW (what is lost then is stated nowhere: those cases are judged by the thread rules and the sanitizer only -- no entry of a remote pipe, no event or log of an application-side pipe, and no event registered with the transfer probe, in the wrong thread); the two logical threads are two "
           "harness-owned event loops in one OS thread, and the history interleaves application calls (input directly or from a source pump, set_flow_def, flush, "
           "set_output(pseudo)/NULL, attach_upump_mgr (also answered with ANOTHER event loop: queue source moved for good, queue sink moved and moved back -- no watcher of the pipe may stay in the loop it left), set_max_length, forwarded control under freeze, release of any handle) with SINGLE pump callbacks of either "
           "loop; in addition an operation can be preempted at its n-th shared-memory access (UPIPE_VERIF hook: atomics, ring elements, event descriptors) by whole "
